@@ -1,0 +1,20 @@
+//go:build !verif
+
+package jet
+
+import "sync"
+
+// Simulation hooks (see verif_on.go). With the "verif" build tag off they
+// compile to nothing, so shipped behaviour is unchanged.
+
+const verifHooked = false
+
+func verifYield(string) {}
+
+func verifSwapRuntime(st *Runtime) *Runtime { return st }
+
+func verifReleaseRuntime(*Runtime) {}
+
+func verifSwapRanger(_ *sync.Pool, pr pooledRanger) pooledRanger { return pr }
+
+func verifReleaseRanger(*sync.Pool, pooledRanger) {}
